@@ -179,6 +179,6 @@ static tn<long> pool_cb(sbx_t& sb, tn<int> code, tn<short> extra)
     if (fault_at(F_CB_BODY, idx, j)) throw InjectedFault();
     if (fault_at(F_CB_RES, idx, j)) return tn<long>(1L << 40);
   }
-  return tn<long>(100 + c);
+  return tn<long>(100L + c);
 }
 #endif
